@@ -38,7 +38,7 @@ META = {
              'in every declaration order + Unions whose members are parametrised containers of every element type (list[str], dict[str,str], set[Decimal] ...) + nested '
              'dataclass SUBCLASSES whose base class is loaded on its own first (history x inheritance, both engines). Names: 30% from the wider snake grammar; Literals include same-typed numeric member sets (Literal[0,1,2], Literal[True]). '
              'Per class: 1 well-typed document + k random mutations (quick 4, thorough 6: junk from a 40-value pool, keys dropped/renamed/added, lists truncated/extended/doubled) '
-             '+ m systematic single-position mutations sampled from the enumeration over EVERY position (quick 6, thorough 10): scalar -> each ==-but-differently-typed value '
+             '+ m systematic single-position mutations sampled from the enumeration over EVERY position (quick 12, thorough 16; at least 2-3 of each kind): scalar -> each ==-but-differently-typed value '
              '(1 / 1.0 / True, "1" / 1) and by a scalar of every OTHER JSON kind (retype), list -> one shorter / one longer, position -> null. Each document x {default, v1, from_json}; every document OBJECT is loaded twice '
              '(same outcome required) and compared with its deep copy afterwards. History axis: for half of the class models the well-typed document is written by the independent '
              'reference encoder so that the FIRST operation on the classes is a load (no dump before), for the other half it is asdict output. '
@@ -304,7 +304,7 @@ def make_cases(ctx):
     for c in cases:
         if '"base"' in json.dumps(c['root']):
             c['pre_load_bases'] = rh.random() < 0.6      # history x inheritance: base classes loaded alone first
-        c.setdefault('n_sys', 6 if ctx.tier == 'quick' else 10)
+        c.setdefault('n_sys', 12 if ctx.tier == 'quick' else 16)
         c['load_first'] = rh.random() < 0.5       # history: first load before / after the first dump of the classes
     return cases
 
@@ -417,6 +417,14 @@ def run(ctx):
             ctx.hist('history', 'load-first' if c.get('load_first') else 'dump-first')
             m = model.get((ci, di))
             if m is None:
+                continue
+            if res.get('alias_reordered'):
+                # typing returned a cached alias with another Union argument order inside this very class model
+                ctx.hist('model_skipped', 'typing alias cache reordered a Union')
+                continue
+            if res.get('f56'):
+                # finding F56 (listed under C01): defaultdict[..., X | Y] cannot be loaded at all (TypeError); not in the model
+                ctx.hist('model_skipped', 'F56 defaultdict pep604 union value')
                 continue
             o = d['v0']
             if m.startswith('!U') or m.startswith('!M'):
